@@ -19,6 +19,35 @@ CHECKS = {
              "(add/insert receive detached non-ancestor objects). Bounded: 3+2 nodes exhaustively, 5+3 nodes in traces.",
         technique="TLA+ spec + TLC exhaustive check; edge replay into real Composite objects; TLC trace validation of recorded histories",
     ),
+    "C07": dict(
+        text="TLA+ lattice specifications (HexLattice: cube-coordinate geometric reference + line-by-line transcription of armi's ring/position "
+             "arithmetic with theorems that they agree; CartLattice; GridGeom/Nested/Reduce for coordinates, nesting, reduce/rebuild, changePitch) are "
+             "checked exhaustively by TLC over all cells within N rings, both orientations; every explored edge/case is then executed on real armi grids "
+             "and compared field by field with the values TLC computed.",
+        design="3/C07 and 9",
+        note="Trusted: TLC, projection of real grids to lattice integers (snap tolerance on coordinates). Bounded: hex N=9 rings quick / 24 thorough, "
+             "Cartesian radius 6/14, nesting depth 3. Cartesian (ring,pos)->indices is a documented NotImplementedError (modelled as refusal).",
+        technique="TLA+ lattice specs checked exhaustively with TLC; one implementation test per TLC state/edge on real grids",
+    ),
+    "C08": dict(
+        text="HexSymmetry/CartSymmetry/BlockRotation specifications define symmetric images, domains, symmetry lines and rotations geometrically with exact "
+             "integer lattice arithmetic next to transcriptions of armi's algorithms; TLC proves them equal over all cells within N rings and all k; every "
+             "case/edge is replayed on real grids, blocks and assemblies; random rotation histories recorded from real code are validated by TLC.",
+        design="3/C08 and 9",
+        note="Trusted: TLC, snapping of real coordinates to lattice units (1e-9). Bounded: N=8/14 rings, |k|<=7/13 (+ large k), fixed menu of block layouts; "
+             "eighth-core symmetries raise NotImplementedError in armi and are outside the domain.",
+        technique="TLA+ symmetry/rotation specs + TLC; replay of every TLC case into real grids/blocks; TLC trace validation of recorded rotation histories",
+    ),
+    "C09": dict(
+        text="CcccRecord (record state machine: open, rw* field steps, close, read back) and CcccFormats (per-format record grammar as a function of the header, "
+             "PRESENT-IF table, byte-count laws) are checked by TLC; every enumerated field sequence and every (format, header) case is written by the real "
+             "writers, parsed by an independent frame parser, compared with the record sequence TLC computed, read back, re-written and byte-compared, in "
+             "binary and ASCII; recorded writer histories are validated by TLC.",
+        design="3/C09 and 9",
+        note="Trusted: TLC, the independent frame parsers, the container builder driven by the spec's manifest. Counts 1..3 per dimension; meaning of numbers not "
+             "modelled. Five known findings (ASCII field widths, DLAYXS ASCII read, ISOTXS/GAMISO sub-blocking) are listed in known_findings.json.",
+        technique="TLA+ record/format grammar specs + TLC; files written by real code checked against the TLC-computed record sequence; read-back and byte-identical rewrite; TLC trace validation",
+    ),
 }
 
 NOT_YET = "no specification-bound check has been built for this property yet in this session (planned, see DESIGN.md section 3)"
